@@ -190,6 +190,37 @@ func runWorker(id, tier string, rank, n int, out string) int {
 // Touch signals liveness to the watchdog for properties that do not use Inner.
 func (w *Worker) Touch() { w.progress.Add(1) }
 
+// shardReports re-runs one shard of the enumeration (the same deterministic sequence of executions in
+// one fresh process) `times` times and says whether every run reported the signature again.
+func shardReports(exe, id, tier string, rank, n int, sig string, times int) bool {
+	if n <= 0 {
+		return false
+	}
+	for k := 0; k < times; k++ {
+		out := filepath.Join(buildDir(), fmt.Sprintf("rerun-%d-%d.json", rank, k))
+		os.MkdirAll(buildDir(), 0o755)
+		os.Remove(out)
+		cmd := exec.Command(exe, "worker", id, tier, strconv.Itoa(rank), strconv.Itoa(n), out)
+		cmd.Env = append(os.Environ(), "GOMAXPROCS=2")
+		if err := cmd.Run(); err != nil {
+			return false
+		}
+		b, err := os.ReadFile(out)
+		os.Remove(out)
+		if err != nil {
+			return false
+		}
+		var r Report
+		if json.Unmarshal(b, &r) != nil {
+			return false
+		}
+		if _, ok := r.Violations[sig]; !ok {
+			return false
+		}
+	}
+	return true
+}
+
 func replay(path string, verbose bool) int {
 	b, err := os.ReadFile(path)
 	if err != nil {
@@ -207,6 +238,20 @@ func replay(path string, verbose bool) int {
 		return 2
 	}
 	spec := v.Replay
+	if v.HistoryDependent {
+		exe, _ := os.Executable()
+		if shardReports(exe, v.Property, spec.Tier, v.Worker, v.Workers, v.Signature, 1) {
+			if verbose {
+				fmt.Printf("REPLAY-VIOLATION property=%s signature=%q (history-dependent: reported again by the sequence of executions of worker %d/%d)\n  %s\n", v.Property, v.Signature, v.Worker, v.Workers, v.Detail)
+				fmt.Printf("VIOLATION property=%s replay=%s\n", v.Property, path)
+			}
+			return 1
+		}
+		if verbose {
+			fmt.Println("replay: the shard's sequence of executions no longer reports the recorded signature")
+		}
+		return 0
+	}
 	w := &Worker{Prop: p.ID, Tier: spec.Tier, Rank: 0, N: 1, Rep: newReport(p.ID, 0), replay: &spec,
 		deadline: time.Now().Add(time.Hour)}
 	p.Run(w)
@@ -367,6 +412,7 @@ func coordinate(id, tier string) int {
 			}
 		}
 		for sig, v := range rep.Violations {
+			v.Worker, v.Workers = i, n
 			old, ok := merged.Violations[sig]
 			if !ok {
 				merged.Violations[sig] = v
@@ -409,7 +455,7 @@ func coordinate(id, tier string) int {
 	}
 	exit := 0
 	nviol := 0
-	var knownLines, violLines []string
+	var knownLines, violLines, alone []string
 	sigs := sortedKeys(merged.Violations)
 	for _, sig := range sigs {
 		v := merged.Violations[sig]
@@ -434,6 +480,11 @@ func coordinate(id, tier string) int {
 					okc++
 				}
 			}
+			if okc == 0 {
+				// never when executed alone: decided after the reproducible ones (below)
+				alone = append(alone, sig)
+				continue
+			}
 			if okc != 5 {
 				fmt.Fprintf(os.Stderr, "harness error: violation %q reproduced %d/5 times through replay; treated as infrastructure failure\n", sig, okc)
 				return 2
@@ -443,6 +494,29 @@ func coordinate(id, tier string) int {
 		exit = 1
 		violLines = append(violLines, fmt.Sprintf("VIOLATION property=%s replay=%s", id, path))
 		fmt.Fprintf(os.Stderr, "-- %s: %s (%d cases)\n   %s\n", id, sig, v.Count, v.Detail)
+	}
+	// Violations that never reproduce alone: does the shard's deterministic sequence of executions,
+	// run again in one fresh process, report them again (2 of 2)? Then the code under test keeps
+	// state from one execution to the next and the violation is real. At most 3 such re-runs;
+	// the others are dropped when something has been confirmed, else the run is an infrastructure failure.
+	for k, sig := range alone {
+		v := merged.Violations[sig]
+		if k < 3 && shardReports(exe, id, tier, v.Worker, v.Workers, sig, 2) {
+			v.HistoryDependent = true
+			v.Detail += " [history-dependent: the case alone does not violate the property in a fresh process; the deterministic sequence of executions of worker " + strconv.Itoa(v.Worker) + "/" + strconv.Itoa(v.Workers) + " reported it again in 2 of 2 re-runs: the code under test keeps state from one execution to the next]"
+			writeJSON(v.Path, v)
+			nviol++
+			exit = 1
+			violLines = append(violLines, fmt.Sprintf("VIOLATION property=%s replay=%s", id, v.Path))
+			fmt.Fprintf(os.Stderr, "-- %s: %s (%d cases)\n   %s\n", id, sig, v.Count, v.Detail)
+			continue
+		}
+		os.Remove(v.Path)
+		if k < 3 {
+			fmt.Fprintf(os.Stderr, "harness error: violation %q reproduced 0/5 times alone and not in a re-run of its shard; treated as infrastructure failure\n", sig)
+			return 2
+		}
+		fmt.Fprintf(os.Stderr, "note: signature %q (never reproduces alone) was not re-examined: three history-dependent signatures were already re-run\n", sig)
 	}
 
 	// evidence
